@@ -145,7 +145,7 @@ def run(tier):
                               "swapping operands changes the result kind: `%s` : %s, `%s` : %s" % (text, got, exprs[j]["text"], got2),
                               {"decl": DECL, "e1": text, "r1": got, "e2": exprs[j]["text"], "r2": got2})
             want = cs["r"]
-            same = (want == got) or (want in ("RECORD", "ARRAY", "SCALAR", "CHANNEL") and got not in ("ERR",)) or \
+            same = (want == got) or (got == "SYSTEM_META" and want != "ERR") or (want in ("RECORD", "ARRAY", "SCALAR", "CHANNEL") and got not in ("ERR",)) or \
                    (want == "INT" and got in ("INT",)) 
             if not same:
                 drift += 1
